@@ -20,7 +20,7 @@ def run(rep, tier):
     rep.rule("R-C19-callback", "mirror image in the callback interceptor: OUT at entry, IN from a scope guard after the callee, both with (CALLBACK, nullptr, key, sandbox.transition_state); one timing record")
     rep.rule("R-C19-scope-exit", "scope_exit runs its function in the destructor iff armed; the move constructor arms the destination iff the source was armed and disarms the source; copying is deleted")
     backends = ["model32_trans", "noop_trans"]
-    dbs = facts.load_core(backends, ["INVOKE"], thorough=(tier == "thorough"))
+    dbs = facts.load_core(backends, ["INVOKE", "SCOPE"], thorough=(tier == "thorough"))
     n = {"invoke": 0, "callback": 0, "scope": 0}
     for db in dbs:
         rep.units.append(db.label)
